@@ -162,6 +162,9 @@ def run_history(run, case):
             m = t['m']
             req = A.build(m, unit=unit)
             nreq = len(peer.requests)
+            env.ops = 0                   # the transport-operation bound is per transaction
+            if len(env.trace) > 5000:
+                del env.trace[:]
             try:
                 result = client.execute(req)
                 exc = None
@@ -266,7 +269,7 @@ def run(run):
                 'distinct = whole history; non-trivial = history contains a foreign frame or >= 2 transactions')
     run.assumptions = ['scripted reference server (spec codec + reference ADU builder + register-file model)', 'OS doubles with pyserial / BSD-socket semantics in virtual time',
                        'positive clause only for calls whose received bytes are exactly one conformant reply']
-    n = run.scale(2200, 30000)
+    n = run.scale(2200, 250000)
     for kind in KINDS:
         for i in range(n):
             ntx = r.choice([1, 2, 5, 12, 50]) if i % 10 == 0 else r.choice([1, 2, 3, 5])
